@@ -28,13 +28,14 @@ def log(*a):
 
 
 class Lock:
-    def __init__(self, name):
+    def __init__(self, name, shared=False):
         os.makedirs(CACHE, exist_ok=True)
         self.path = os.path.join(CACHE, name + ".lock")
+        self.shared = shared
 
     def __enter__(self):
-        self.f = open(self.path, "w")
-        fcntl.flock(self.f, fcntl.LOCK_EX)
+        self.f = open(self.path, "a")
+        fcntl.flock(self.f, fcntl.LOCK_SH if self.shared else fcntl.LOCK_EX)
         return self
 
     def __exit__(self, *a):
@@ -138,7 +139,8 @@ def build_harness(name, extra=(), sanitize=False, opt="-O2"):
             cmd += ["-fsanitize=address,undefined", "-fno-sanitize-recover=all", "-fno-omit-frame-pointer"]
         cmd += [src, "-o", exe, "-L" + BUILD, "-lSimTKsimbody", "-lSimTKmath", "-lSimTKcommon",
                 "-lpthread", "-Wl,-rpath," + BUILD]
-        rc, o, e = sh(cmd, timeout=900)
+        with Lock("build", shared=True):
+            rc, o, e = sh(cmd, timeout=1800)
         if rc != 0:
             raise BuildError("harness %s does not compile against the current tree:\n%s" % (name, (o + e)[-6000:]))
         open(stamp, "w").write(key)
@@ -262,8 +264,11 @@ def f2hex(x):
 
 
 def run_prog(cmd, input=None, timeout=3000, env=None):
+    """run a harness / driver; holds the build lock in SHARED mode so that a concurrent relink of the
+    libraries (build_repo takes it exclusively) cannot be observed half-written"""
     t0 = time.time()
-    rc, o, e = sh(cmd, input=input, timeout=timeout, env=env)
+    with Lock("build", shared=True):
+        rc, o, e = sh(cmd, input=input, timeout=timeout, env=env)
     return rc, o, e, time.time() - t0
 
 
